@@ -20,33 +20,35 @@ def odd_kernel_guard(ctx, rule, p, K, fkey, shape_forms, exc_names):
     """must-raise: an exception guarded by `shape[0] % 2 == 0 or shape[1] % 2 == 0` (both axes) precedes every other effect of the function."""
     f = p.func(fkey)
     S = K.summarize(f)
-    hit = None
+    # the evenness tests that lead to the rejection: one `a % 2 == 0 or b % 2 == 0` guard, or one guard per axis in sequence (each later one under "the earlier did not raise")
+    def axis_of(c, op):
+        if c.kind == "cmp" and c.args[1] == op and c.args[2] == ZERO:
+            for k in (0, 1):
+                for form in shape_forms:
+                    if c.args[0] == Poly.fn("mod", form(k), Poly.const(2)):
+                        return k
+        return None
+    axes, first = set(), None
     for name, guards, node in S.raises:
         if name.split(".")[-1] not in exc_names:
             continue
-        g = [c for c in guards if not getattr(c, "path", None)]
-        if len(g) != 1 or g[0].kind != "or":
-            continue
-        axes = set()
-        for c in g[0].args:
-            if c.kind == "cmp" and c.args[1] == "==" and c.args[2] == ZERO:
-                for k in (0, 1):
-                    for form in shape_forms:
-                        if c.args[0] == Poly.fn("mod", form(k), Poly.const(2)):
-                            axes.add(k)
-        if axes == {0, 1}:
-            hit = (node, g[0])
-    if hit is None:
-        ctx.ob(rule, fkey, False, where=f, node=f.node, construct="even-kernel check",
+        own = [c for g_ in guards if not getattr(g_, "path", None) for c in g_.flat_and()]
+        parts = own[0].args if len(own) == 1 and own[0].kind == "or" else own
+        ks = {axis_of(c, "==") for c in parts}
+        if parts and None not in ks:
+            axes |= ks
+            first = first or node
+    if axes != {0, 1}:
+        ctx.ob(rule, fkey, False, where=f, node=f.node, construct=f"even-kernel check covers axes {sorted(axes)}",
                message="no `raise` guarded by an evenness test of BOTH kernel axes (shape[0] % 2 == 0 or shape[1] % 2 == 0) found")
         return
-    # dominance: every store / call effect recorded in the summary (other than the raise itself) carries the negated test as a path condition
-    rk = hit[1].negate().key()
-    undominated = [s for s in S.stores if rk not in {c.key() for c in s.guards}]
-    # stores textually before the check are the only way to be undominated
-    ctx.ob(rule, fkey, not undominated, where=f, node=undominated[0].node if undominated else hit[0],
-           construct=repr(undominated[0])[:120] if undominated else repr(hit[1]),
-           message="an effect of the function is not dominated by the even-kernel rejection", detail=repr(hit[1]))
+    # dominance: every store recorded in the summary carries "axis k is odd" for both axes as a (path) condition
+    def odd_axes(st):
+        return {axis_of(c, "!=") for g_ in st.guards for c in g_.flat_and()} - {None}
+    undominated = [st for st in S.stores if odd_axes(st) != {0, 1}]
+    ctx.ob(rule, fkey, not undominated, where=f, node=undominated[0].node if undominated else first,
+           construct=repr(undominated[0])[:120] if undominated else "both axes tested before any effect",
+           message="an effect of the function is not dominated by the even-kernel rejection")
 
 
 def frame_rule(ctx, p, K):
